@@ -117,3 +117,80 @@ Proof.
   { apply (RZ_step_core (ev_call (fst eh))); [reflexivity|exact Hs|]. assert (H0 : RZ s s) by apply RZ_refl. fr_go (RZ s) t_rz. }
   fr_go (RZ s) t_rz.
 Qed.
+
+(* ---- the counter never exceeds WorkerTaskRetryCount ---------------------------------------------------------------------------------------------- *)
+Definition RB (lim : nat) (s : state) : Prop :=
+  cf_retry_count (s_cfg s) = lim /\ forall T, (t_retry (get_task s T) <= lim)%nat.
+
+Ltac t_rb :=
+  intros; unfold RB in *;
+  match goal with H : _ /\ _ |- _ => let Hc := fresh "Hc" in let Hb := fresh "Hb" in destruct H as [Hc Hb]; split;
+    [ prim_unfold; prim_cases; cbn; exact Hc
+    | let T := fresh "T" in intro T; specialize (Hb T);
+      first [ (erewrite get_task_frame; [eassumption | prim_unfold; prim_cases; reflexivity])
+            | (rewrite get_task_upd_task;
+               let E := fresh "E" in
+               destruct (Nat.eqb T _) eqn:E;
+               [ apply Nat.eqb_eq in E; subst T; cbn; first [assumption | lia] | assumption ])
+            | (match goal with |- context [get_task ?s1 T] =>
+                 lazymatch s1 with
+                 | set _ _ _ =>
+                   let Hn := fresh "Hn" in
+                   match goal with Hs : context [get_task ?s2 T] |- _ =>
+                     destruct (get_task_new s2 T _ (fun _ => s1) eq_refl) as [Hn|Hn]; rewrite Hn; cbn; first [assumption | lia]
+                   end
+                 end
+               end) ] ] end.
+
+Section Bound.
+  Variable c0 : nat.
+  Variable lim : nat.
+
+  Lemma RB_get_current_or_next : forall w bl pr s, RB lim s -> RB lim (get_current_or_next c0 w bl pr s).
+  Proof.
+    intros w bl pr s H. unfold get_current_or_next. destruct (k_task (get_worker s w)) as [t|]; [|fr_go (RB lim) t_rb].
+    destruct (Nat.ltb _ _) eqn:El; [|fr_go (RB lim) t_rb].
+    assert (H1 : RB lim (upd_task t (fun x => x <| t_retry ::= S |>) s)).
+    { destruct H as [Hc Hb]. split; [exact Hc|]. intro T. rewrite get_task_upd_task. destruct (Nat.eqb T t) eqn:E; [|apply Hb].
+      apply Nat.eqb_eq in E. subst T. cbn. apply Nat.ltb_lt in El. rewrite Hc in El. lia. }
+    fr_go (RB lim) t_rb.
+  Qed.
+
+  Lemma RB_sync_start : forall a s, RB lim s -> RB lim (sync_start c0 a s).
+  Proof.
+    intros a s H. unfold sync_start. cbv zeta.
+    repeat fr_destruct_head;
+      first [ apply RB_get_current_or_next; fr_go (RB lim) t_rb
+            | fr_go (RB lim) t_rb ].
+  Qed.
+
+  Lemma RB_step_core : forall e s, ev_call e = c0 -> RB lim s -> RB lim (step_core e s).
+  Proof.
+    intros e s Hc H. destruct (is_sync e) eqn:Es.
+    - destruct e; try discriminate Es. cbn [ev_call] in Hc. subst c. unfold step_core. apply RB_sync_start. fr_go (RB lim) t_rb.
+    - destruct e; cbn [ev_call] in Hc; try discriminate Es; subst; unfold step_core; cbv zeta; fr_go (RB lim) t_rb.
+  Qed.
+End Bound.
+
+Lemma RB_step : forall lim s eh, RB lim s -> RB lim (fst (step s eh)).
+Proof.
+  intros lim s eh H0. unfold step. cbn [fst]. unfold auto_returns.
+  assert (H : RB lim (step_core (fst eh) (s <| s_hints := snd eh |> <| s_out := [] |>))).
+  { apply (RB_step_core (ev_call (fst eh))); [reflexivity|]. fr_go (RB lim) t_rb. }
+  fr_go (RB lim) t_rb.
+Qed.
+
+Lemma RB_run : forall lim evs s, RB lim s -> RB lim (fst (run s evs)).
+Proof.
+  intros lim. induction evs as [|eh evs IH]; intros s H; cbn [run fst]; [exact H|].
+  pose proof (RB_step lim s eh H) as H1. destruct (step s eh) as [s1 o]. cbn [fst] in H1.
+  specialize (IH s1 H1). destruct (run s1 evs) as [s2 os]. exact IH.
+Qed.
+
+(* all event lists, no hypothesis: a task's retry counter never exceeds the configured WorkerTaskRetryCount *)
+Theorem retry_counter_bounded : forall cfg t0 evs T,
+  (t_retry (get_task (fst (run (init cfg t0) evs)) T) <= cf_retry_count cfg)%nat.
+Proof.
+  intros cfg t0 evs T. assert (H : RB (cf_retry_count cfg) (init cfg t0)) by (split; [reflexivity|intro T'; cbn; lia]).
+  exact (proj2 (RB_run _ evs _ H) T).
+Qed.
